@@ -2048,8 +2048,18 @@ redirect_lan_packet_to_control_plane(struct __sk_buff *skb, __u32 link_h_len,
 	handoff.result.outbound = routing_meta.data.outbound;
 	handoff.result.dscp = routing_meta.data.dscp;
 	__builtin_memcpy(handoff.result.mac, pkt->ethh.h_source, 6);
-	bpf_map_update_elem(&routing_handoff_map, &pkt->tuples.five,
-			    &handoff, BPF_ANY);
+	if (bpf_map_update_elem(&routing_handoff_map, &pkt->tuples.five,
+				&handoff, BPF_ANY)) {
+		/* The hand-off record could not be stored. Unless the conn state
+		 * carries the decision, the control plane could not recover it:
+		 * fail closed like the WAN egress path does.
+		 */
+		struct conn_state *cs =
+			bpf_map_lookup_elem(&conn_state_map, &pkt->tuples.five);
+
+		if (!cs || !cs->meta.data.has_routing)
+			return TC_ACT_SHOT;
+	}
 	return redirect_to_control_plane_ingress();
 }
 
